@@ -114,10 +114,54 @@ def post_target(ctx, rec, with_grad=True):
     return post, {"logd": p_logd, "grad": p_grad, "ref_logd": ref_logd, "ref_grad": ref_grad}
 
 
+def _geom_post(rec):
+    """Posterior whose unknown lives on a geometry with a non-trivial parameter-to-function map.
+    post_step  : StepExpansion (dim parameters -> 3*dim function values), linear model acting on function values
+    post_mapped: MappedGeometry exp(0.3 x), generic model acting on function values.
+    Returns (posterior, closed-form log-density in numpy)."""
+    from cuqi.geometry import StepExpansion, MappedGeometry, Continuous1D
+    n = rec["dim"]
+    rs = np.random.RandomState(rec["zseed"])
+    cov = np.linspace(0.5, 1.5, n)
+    m = n + 1
+    y = rs.randn(m)
+
+    def lg(r_, c_):
+        r_ = np.ravel(np.asarray(r_, float))
+        c_ = np.broadcast_to(c_, r_.shape)
+        return float(-0.5 * np.sum(np.log(2 * np.pi * c_)) - 0.5 * np.sum(r_ * r_ / c_))
+    if rec["kind"] == "post_step":
+        nf = 3 * n
+        A = rs.randn(m, nf)
+        g = StepExpansion(np.linspace(0, 1, nf), n_steps=n)
+        x = Gaussian(np.zeros(n), cov, geometry=g, name="x")
+        M = LinearModel(A, domain_geometry=g, range_geometry=m)
+        p2f = lambda v: np.repeat(np.asarray(v, float).reshape(-1), 3)
+    else:
+        A = rs.randn(m, n)
+        g = MappedGeometry(Continuous1D(n), map=lambda v: np.exp(0.3 * v), imap=lambda f: np.log(f) / 0.3)
+        x = Gaussian(np.zeros(n), cov, geometry=g, name="x")
+        M = Model(lambda x: A @ x, range_geometry=m, domain_geometry=g)
+        p2f = lambda v: np.exp(0.3 * np.asarray(v, float).reshape(-1))
+    lik = Gaussian(M(x), 0.5, name="y").to_likelihood(y)
+    ref = lambda v: lg(y - A @ p2f(v), 0.5) + lg(v, cov)
+    return Posterior(lik, x), ref
+
+
+def geom_post_target(ctx, rec):
+    post, ref = _geom_post(rec)
+    real_logd = post.logd
+    p_logd = Probe(ctx, "logd", lambda x: real_logd(x))
+    post.logd = p_logd
+    return post, {"logd": p_logd, "grad": None, "ref_logd": ref, "ref_grad": None}
+
+
 def ud_target(ctx, rec, with_grad=True):
     """UserDefinedDistribution whose callables are probes.  rec: {kind, dim, zseed}."""
     if rec["kind"] == "post":
         return post_target(ctx, rec, with_grad)
+    if rec["kind"] in ("post_step", "post_mapped"):
+        return geom_post_target(ctx, rec)
     logp, grad = ref_density(rec["kind"], rec["dim"], rec["zseed"])
     p_logd = Probe(ctx, "logd", logp)
     p_grad = Probe(ctx, "grad", grad) if with_grad else None
@@ -258,7 +302,8 @@ def gen_exp_scenario(r, kind=None, dim_max=5):
     t, k = sc["target"], sc["knobs"]
     ip = [round(r.uniform(-1, 1), 3) for _ in range(dim)]
     if kind in ("MH", "CWMH", "ULA", "MALA", "NUTS"):
-        t["kind"] = r.choice(DENSITY_KINDS + ["post"] + (["boxed", "boxed"] if kind in ("MH", "CWMH", "MALA") else []))
+        t["kind"] = r.choice(DENSITY_KINDS + ["post"] + (["boxed", "boxed"] if kind in ("MH", "CWMH", "MALA") else [])
+                             + (["post_step", "post_mapped"] if kind in ("MH", "CWMH") else []))
         if t["kind"] == "boxed" and kind in ("MH", "CWMH") and r.random() < 0.4:
             ip = [round(v * 6, 3) for v in ip]            # possibly a start value of zero density (outside the support)
         if r.random() < 0.8:
@@ -458,6 +503,15 @@ def gibbs_joint(rec, ctx=None):
         B = rs.randn(m, n)
         y = Gaussian(lambda x, z: A @ x + B @ z, cov=lambda s: 1 / s, name="y", geometry=m)
         J = JointDistribution(*_perm(rec, [y, x, z, s]))(y=yobs)
+    elif shape == "x_s_step":   # as x_s, the unknown on a step-expansion geometry (n heights -> 3n nodes seen by the model)
+        from cuqi.geometry import StepExpansion
+        A3 = rs.randn(m, 3 * n)
+        s = Gamma(1.0, 1e-1, name="s")
+        x = Gaussian(np.zeros(n), 1.0, geometry=StepExpansion(np.linspace(0, 1, 3 * n), n_steps=n), name="x")
+        Mx = LinearModel(A3, domain_geometry=StepExpansion(np.linspace(0, 1, 3 * n), n_steps=n), range_geometry=m)
+        y = Gaussian(Mx(x), cov=lambda s: 1 / s, name="y")
+        J = JointDistribution(*_perm(rec, [y, x, s]))(y=yobs)
+        return J, {"A": A3 @ np.kron(np.eye(n), np.ones((3, 1))), "y": yobs, "probes": probes}
     elif shape == "x_l1_l2":    # two data sets with their own noise precisions entering one x-block
         l1 = Gamma(1.0, 1e-1, name="l1")
         l2 = Gamma(2.0, 3e-1, name="l2")
@@ -490,6 +544,7 @@ GIBBS_SHAPES = {
     "x_d_a": {"x": ["LinearRTO", "MH"], "d": ["Conjugate", "Conjugate", "MH"], "a": ["MH"]},
     "x_s_w": {"x": ["LinearRTO", "MH"], "s": ["Conjugate", "MH"], "w": ["Direct", "Direct", "MH"]},
     "x_d_reg": {"x": ["RegularizedLinearRTO"], "d": ["Conjugate"]},
+    "x_s_step": {"x": ["LinearRTO", "MH", "CWMH"], "s": ["Conjugate", "MH"]},
     "x_l1_l2": {"x": ["LinearRTO", "LinearRTO", "MH"], "l1": ["Conjugate", "MH"], "l2": ["Conjugate", "Conjugate", "MH"]},
 }
 LEGACY_GIBBS_SHAPES = {
@@ -621,7 +676,7 @@ def build_legacy_sampler(ctx, sc, callback=None):
         k["proposal"] = lambda x_t, sigma: np.random.normal(x_t, sigma)
     elif kind == "CWMH" and prop == "normal_cond":
         k["proposal"] = cuqi.distribution.Normal(mean=None, std=None, geometry=sc["target"]["dim"])
-    if sc["target"].get("lambda_target") and kind in ("MH", "CWMH") and sc["target"].get("kind") not in ("post",):
+    if sc["target"].get("lambda_target") and kind in ("MH", "CWMH") and not str(sc["target"].get("kind")).startswith("post"):
         # the stateless interface also accepts a bare log-density function plus dim
         probe = info["logd"]
         target = (lambda x: probe(x))
